@@ -7,14 +7,14 @@ PROP = "C03"
 
 def scenarios(rng, tier):
     out = []
-    n = 13 if tier == "quick" else 68
+    n = 14 if tier == "quick" else 76
     kinds = ["file-link", "file-copy", "dir-link", "dir-copy", "dir-recommit", "xdev-link", "checkout-link", "checkout-copy", "stage-add", "stage-remove",
              "dir-recommit", "stage-symlink", "artifact-xdev", "two-stages", "checkout-copy-tmp-sibling", "stage-add-many", "stage-remove-many",
-             "big-link"]
+             "big-link", "long-stage-name"]
     for i in range(n):
         kind = kinds[i % len(kinds)] if tier == "thorough" else ["dir-link", "dir-recommit", "xdev-link", "file-copy", "checkout-copy", "stage-add",
                                                                    "stage-symlink", "artifact-xdev", "two-stages", "checkout-copy-tmp-sibling",
-                                                                   "stage-add-many", "big-link", "stage-remove-many"][i % 13]
+                                                                   "stage-add-many", "big-link", "stage-remove-many", "long-stage-name"][i % 14]
         init = []
         stages = []
         if kind == "artifact-xdev":
@@ -35,6 +35,12 @@ def scenarios(rng, tier):
             init = [("file", b"big.bin", "g:%d:%d" % (rng.randrange(100), big)), ("dir", b"tree"),
                     ("file", b"tree/large.bin", "g:%d:%d" % (rng.randrange(100), 8 << 20)), ("file", b"tree/small.bin", "g:%d:9" % rng.randrange(100))]
             stages = [(b"s1.yaml", dict(cmd=b"", wd=b".", out=[(b"big.bin", "")])), (b"s2.yaml", dict(cmd=b"", wd=b".", out=[(b"tree", "d")]))]
+        elif kind == "long-stage-name":
+            # a stage file whose name leaves no room for a suffix (NAME_MAX is 255): whatever commit does about its temp file, the
+            # stage file is never torn
+            nm = b"S" * rng.choice([247, 248, 250]) + b".yaml"
+            init = [("file", b"data.bin", "g:%d:%d" % (rng.randrange(100), rng.choice([5, 70000])))]
+            stages = [(nm, dict(cmd=b"", wd=b".", out=[(b"data.bin", "")]))]
         elif kind.startswith("file"):
             init = [("file", b"data.bin", "g:%d:%d" % (rng.randrange(100), rng.choice([0, 5, 70000])))]
             stages = [(b"s.yaml", dict(cmd=b"", wd=b".", out=[(b"data.bin", "")]))]
@@ -88,6 +94,10 @@ def scenarios(rng, tier):
                 stages.append((b"t%d.yaml" % j, dict(cmd=b"", wd=b".", out=[(b"other%d.txt" % j, "")])))
             c["ops"] = [("commit", "l", [])]
             c["cmd"] = ["stage", "remove", "t0.yaml", "s.yaml", "t1.yaml"][:rng.choice([3, 4])]
+        elif kind == "long-stage-name":
+            c["cmd"] = ["commit"]
+            c["may_fail"] = True
+            c["no_trace"] = True
         elif kind == "big-link":
             # the stages are named: without targets dud visits them in Go map order, and the trace comparison is about one order
             order = [b"s1.yaml", b"s2.yaml"] if rng.random() < 0.5 else [b"s2.yaml", b"s1.yaml"]
